@@ -131,6 +131,11 @@ func (e *exec) log(ev Event) {
 // Enter is called first thing by every instrumented provider.  It returns the verdict chosen by the scheduler.
 func Enter(p string, args ...string) bool {
 	e := curp.Load()
+	if e == nil {
+		// not inside an execution driven by the scheduler: package initialisation evaluates the arguments of the
+		// kessoku.Inject declaration itself (e.g. kessoku.Value(P())), which is no call of the injector
+		return true
+	}
 	e.mu.Lock()
 	e.ncall[p]++
 	n := e.ncall[p]
@@ -156,6 +161,9 @@ func Enter(p string, args ...string) bool {
 // harness into a copy of the generated file in front of every return statement; semantics-preserving.
 func Mark(line int) {
 	e := curp.Load()
+	if e == nil {
+		return
+	}
 	e.mu.Lock()
 	if e.retSite == 0 {
 		e.retSite = line
@@ -166,6 +174,9 @@ func Mark(line int) {
 // MarkG is the same for return statements inside goroutine bodies (logged as events; used for blame only).
 func MarkG(line int) {
 	e := curp.Load()
+	if e == nil {
+		return
+	}
 	e.mu.Lock()
 	e.log(Event{Ev: "GRet", Site: line})
 	e.mu.Unlock()
@@ -191,7 +202,7 @@ func CtxTerm(ctx context.Context) string {
 	if ctx == nil {
 		return "ctx:nil"
 	}
-	if tok, _ := ctx.Value(ctxKey{}).(*int); tok != nil && tok == curp.Load().token {
+	if tok, _ := ctx.Value(ctxKey{}).(*int); tok != nil && curp.Load() != nil && tok == curp.Load().token {
 		return "ctx"
 	}
 	return "ctx:foreign"
